@@ -487,12 +487,7 @@ func (g *Gen) Next() Op {
 	case KMatrix:
 		return Op{K: KMatrix, E: g.R.Intn(1000)}
 	case KQMisuse:
-		kinds := QMisuseKinds[:len(QMisuseKinds)-1]
-		if g.faultOn["next_after_early_close"] {
-			// own sub-profile (known finding, DESIGN.md C20): only in a share of the runs,
-			// so that it cannot hide other divergences
-			kinds = QMisuseKinds
-		}
+		kinds := QMisuseKinds // incl. Next after an early Close (was a known finding, repaired)
 		return Op{K: KQMisuse, M: kinds[g.R.Intn(len(kinds))], E: g.R.Intn(1000), N: g.R.Intn(1000), F: g.R.Intn(MaxFilters), W: g.R.Intn(2)}
 	case KCodec:
 		op := Op{K: KCodec, E: g.R.Intn(100000), X: g.R.Uint64()}
